@@ -476,6 +476,9 @@ class Module(HasAccessibles):
         if accessible.export:
             self.accessiblename2attr[accessible.export] = name
         if isinstance(accessible, Parameter):
+            if cfg and 'readonly' in cfg and not accessible.readonly and not hasattr(self, 'write_' + name):
+                # the description would promise a changeable parameter, but a change request would fail
+                self.errors.append(f'{name}: can not be made writable by configuration (no write_{name} method)')
             self._handle_writes(name, accessible)
 
     def _handle_writes(self, pname, pobj):
